@@ -328,5 +328,56 @@ SPLIT_CLASSES = [
           "SplitP: when a redirection adjoins the word being completed the Context is built from the redirect-filtered tokens but the prefix from the unfiltered ones: the redirection is dropped from / duplicated in the candidate"),
 ]
 
-CLASSES = CLASSES + ALG_CLASSES + SPLIT_CLASSES
+def _cache_keys(i):
+    for o in i.get("ops") or []:
+        for fld in ("kb", "ka"):
+            for t in o.get(fld) or []:
+                for s in t:
+                    yield s
+
+
+def _cache_collision_possible(i):
+    return any(s == "" or "\n" in s or "\x01" in s for s in _cache_keys(i))
+
+
+def _cache_neutral(i):
+    o = copy.deepcopy(i)
+    names = {}
+    for op in o.get("ops") or []:
+        for fld in ("kb", "ka"):
+            if op.get(fld):
+                op[fld] = [[names.setdefault(s, "k%d" % len(names)) for s in t] for t in op[fld]]
+    return o
+
+
+def _cache_loop(i):
+    return any(op.get("k") == "corrupt" and op.get("kind") == "loop" for op in i.get("ops") or [])
+
+
+def _cache_loop_neutral(i):
+    o = copy.deepcopy(i)
+    for op in o.get("ops") or []:
+        if op.get("k") == "corrupt" and op.get("kind") == "loop":
+            op["kind"] = "garbage"
+    return o
+
+
+CACHE_CLASSES = [
+    Class("cache_key_encoding", ("C14",), ("cache",), _cache_collision_possible, _cache_neutral,
+          "the cache file name joins the key values with \\x01 and key.String joins with \\n: different key tuples (`a`,`b` vs `a\\nb`, no key vs one empty key, keys containing \\x01) share one entry"),
+    Class("cache_stat_error_nil_deref", ("C14", "C18"), ("cache",), _cache_loop, _cache_loop_neutral,
+          "cache.Load: a Stat error other than ENOENT (e.g. a symlink loop in place of the entry, EACCES) leaves the FileInfo nil and `stat.ModTime()` panics with a nil pointer dereference"),
+]
+
+def _raw_neutral(i):
+    o = copy.deepcopy(i)
+    o["flavour"] = "action"
+    return o
+
+
+CACHE_CLASSES.append(
+    Class("raw_cache_partial_entry", ("C15",), ("crashwrite",), lambda i: i.get("flavour") == "raw", _raw_neutral,
+          "raw byte cache (pkg/cache.Cache): the entry is written in place; a write that fails part-way (EFBIG, disk full) or is interrupted leaves the fragment, and the next call returns those bytes with err == nil and no real invocation"))
+
+CLASSES = CLASSES + ALG_CLASSES + SPLIT_CLASSES + CACHE_CLASSES
 BY_ID = {c.id: c for c in CLASSES}
